@@ -6,8 +6,9 @@ TRUSTED = [
     "Lean 4.33 kernel; axioms per theorem listed under coverage.axioms (subset of propext, Classical.choice, Quot.sound)",
     "translate/densead.py (C++ subset parser + symbolic executor for Evaluation*.hpp, DynamicEvaluation.hpp, Math.hpp -> Gen/DenseAd.lean), "
     "validated on every run by the bit-exact correspondence of the generated definitions (at Float) with the real classes",
-    "harness/densead.cpp (tree generator, independent dual-number evaluator, finite differences) + lib/vlib.py differ; model driver (compiled Lean)",
-    "modelled, not verified: IEEE rounding (theorems are over an arbitrary field / over the reals), libm, FastSmallVector storage, GPU decorators",
+    "harness/densead.cpp (tree / comparison / factory generators, independent dual-number evaluator with conditioning, finite differences) + lib/vlib.py differ; model driver (compiled Lean)",
+    "try-compile probes harness/densead_probe_satan2.cpp, densead_probe_createvarn.cpp (what does not instantiate must be exactly what the translator could not translate)",
+    "modelled, not verified: IEEE rounding (theorems are over an arbitrary field / over the reals), libm, FastSmallVector storage, GPU decorators, scalar MathToolbox<double>::isSame/isnan/isfinite (hand-written at Float in the driver)",
 ]
 FLAGS = ("-ffp-contract=off",)
 
@@ -21,6 +22,21 @@ def probe_satan2():
     return rc == 0, out[-1500:]
 
 
+def probe_createvarn(size):
+    """Does `createVariable(int nVars, value, varPos)` of a statically sized class instantiate?"""
+    src = os.path.join(vlib.VERIF, "harness", "densead_probe_createvarn.cpp")
+    cmd = ["g++", "-std=c++17", "-fsyntax-only", f"-D{vlib.GUARD}", f"-DPROBE_SIZE={size}", "-I", vlib.REPO, "-I", vlib.OPM_BUILD,
+           "-I", os.path.join(vlib.OPM_BUILD, "include"), src]
+    rc, out, _ = vlib.run(cmd)
+    return rc == 0
+
+
+# Property-mode statements that the tree violated before fixes 8f428cec0 / fb7b4d497 (design.d/C16.md
+# "Findings"); armed = FAIL lines (disarmed they are only counted as probe.* in prop_stats):
+ARM_GENERIC_ARITY = True          # Evaluation<T, n>::createConstant(n, c) of the primary template (guard was `nVars != 0`)
+ARM_DYNAMIC_PREDICATES = True     # MathToolbox<DynamicEvaluation>::isnan/isfinite/isSame look at the derivatives
+
+
 def run(ctx):
     ctx.assumptions += [
         "doubles cross the protocol as IEEE bit patterns; the comparison real code vs generated Lean definitions is bit-exact (tolerance 0 ulp), libm functions included (same libm in both processes)",
@@ -32,7 +48,12 @@ def run(ctx):
         return ctx.finish(trusted_base=TRUSTED)
     have_satan2, probe_out = probe_satan2()
     ctx.cov["probe_atan2_scalar_eval_compiles"] = have_satan2
-    ok, exe, out = vlib.build_harness("densead", extra_flags=FLAGS + (f"-DDENSEAD_HAVE_SATAN2={1 if have_satan2 else 0}",))
+    have_cvn_u, have_cvn_l = probe_createvarn(3), probe_createvarn(13)
+    ctx.cov["probe_createVariable_nVars_compiles"] = {"specialisation": have_cvn_u, "primary_template": have_cvn_l}
+    defs = (f"-DDENSEAD_HAVE_SATAN2={1 if have_satan2 else 0}", f"-DDENSEAD_HAVE_CREATEVARN_U={1 if have_cvn_u else 0}",
+            f"-DDENSEAD_HAVE_CREATEVARN_L={1 if have_cvn_l else 0}", f"-DDENSEAD_ARM_GENERIC_ARITY={1 if ARM_GENERIC_ARITY else 0}",
+            f"-DDENSEAD_ARM_DYNAMIC_PREDICATES={1 if ARM_DYNAMIC_PREDICATES else 0}")
+    ok, exe, out = vlib.build_harness("densead", extra_flags=FLAGS + defs)
     if not ok:
         ctx.tie_broken("harness", "densead harness does not compile: " + out[-2000:])
         return ctx.finish(trusted_base=TRUSTED)
@@ -46,7 +67,7 @@ def run(ctx):
         # the header-only classes again under ASan/UBSan (indeterminate reads, out-of-bounds slots,
         # FastSmallVector misuse): same generators at the quick size
         ok, exe_san, out = vlib.build_harness("densead", sanitize=True,
-                                              extra_flags=FLAGS + (f"-DDENSEAD_HAVE_SATAN2={1 if have_satan2 else 0}",))
+                                              extra_flags=FLAGS + defs)
         if not ok:
             ctx.tie_broken("harness", "densead sanitizer harness does not compile: " + out[-2000:])
         else:
